@@ -229,4 +229,37 @@ Definition split_model (li : Z) (s : list Z) (lim : Z) (lim_given : bool) : opti
   | Some a => Some (OZ (llen a) :: a, li)
   end.
 
+
+(* does builtinStringReplace store lastIndex?  only for a global expression; with
+   d_gproto (the code) not when nothing matched *)
+Definition replace_written (g : bool) (s : list Z) : bool :=
+  g && (negb (d_gproto dv) || match find_all s (-1) with Some [] => false | _ => true end).
+
 End Proto.
+
+(* builtinStringSplit, string branch: strings.SplitN(target, separator, limit+1) cut to
+   limit; SplitN with "" explodes into characters.  sep = None: separator undefined *)
+Fixpoint gsplit (fuel : nat) (sep s : list Z) : list (list Z) :=
+  match fuel with
+  | O => [s]
+  | S f =>
+      match find_lit sep s O with
+      | None => [s]
+      | Some i => firstn i s :: gsplit f sep (skipn (i + length sep) s)
+      end
+  end.
+Definition go_split (sep s : list Z) : list (list Z) :=
+  match sep with
+  | [] => map (fun c => [c]) s
+  | _ => gsplit (S (length s)) sep s
+  end.
+Definition split_str_model (s : list Z) (sep : option (list Z)) (lim : Z) (lim_given : bool) : list ov :=
+  let arr :=
+    if lim_given && (lim =? 0) then []
+    else match sep with
+         | None => [OS s]
+         | Some sp =>
+             let full := map OS (go_split sp s) in
+             if lim_given && (lim <? llen full) then firstn (Z.to_nat lim) full else full
+         end in
+  OZ (llen arr) :: arr.
